@@ -88,6 +88,10 @@ var docMenu = []struct {
 	{"starred", "/**\n * first\n * second\n */", "first\nsecond", false},
 	{"unstarred", "/**\n   plain text\n*/", "plain text", false},
 	{"distant", "/** far away */", "", true},
+	// the text may itself end in the characters of the closing marker
+	{"slash-end", "/** served under /api/v1/*/", "served under /api/v1/", false},
+	{"star-end", "/** banner **/", "banner *", false},
+	{"glob-line", "/**\n * matches src/**\n */", "matches src/**", false},
 }
 
 // Deviations lists every single deviation applicable to the token stream.
